@@ -365,7 +365,7 @@ impl Check for Cli {
 // ---- generator -------------------------------------------------------------------------------
 
 const KEYS: &[&str] = &["a", "b", "k", "x1", "value_1", "value_2", "value_total"];
-const NAMES: &[&str] = &["p", "q", "r", "s", "total", "out1"];
+const NAMES: &[&str] = &["p", "q", "r", "s", "total", "out1", "outputs", "output_dir", "outputx", "returned", "iffy"];
 
 fn lit(t: &mut Tape) -> MV {
     match t.pick(8) {
